@@ -59,6 +59,11 @@ func c08Gen(g *Gen) {
 	for _, s := range c08Corpus {
 		emit("corpus", s, true)
 	}
+	// the format tool on a directory tree: FormatFiles / Format, plain directory / symbolic link, other extension, -help
+	for v := 0; v < 8; v++ {
+		g.Count("format-tree")
+		g.Emit(fmt.Sprintf("FMT %d", v))
+	}
 
 	// ---- exhaustive depth-2 operator nestings
 	atomSets := [][3]string{{"a", "b", "c"}, {"t", "f", "t"}, {"s", "l", "1"}}
@@ -147,6 +152,16 @@ func c08Gen(g *Gen) {
 				emit("mulchain", fmt.Sprintf("x := 7 * ((-11 %s (5 + 1)) %s 3) %s 2", o1, o2, o3), true)
 				emit("mulchain", fmt.Sprintf("7 * ((a %s b) %s (c %s 5))", o1, o2, o3), true)
 			}
+		}
+	}
+
+	// ---- map literals inside (redundant) parentheses in the places where a brace starts a block: today the parser
+	// rejects them (skipped as unparseable); if it ever accepts them the printer must keep the parentheses
+	for _, m := range []string{"{\"a\" : 1}", "{}", "{\"a\" : 1, \"b\" : 2, \"c\" : 3}"} {
+		for _, f := range []string{"if (a == %s) {\nb\n}", "if t and (s == %s) {\nb\n}", "if f {\na\n} elif (%s) {\nb\n}",
+			"for [k, v] in (%s) {\nx.rec(k)\n}", "for (a in %s) {\nb\n}", "if x.rec((%s)) {\nb\n}", "for x.lim() and (%s == a) {\nb\n}",
+			"if (%s) {\nb\n}", "if not (%s) {\nb\n}", "if x.rec(%s) {\nb\n}", "if [%s] {\nb\n}"} {
+			emit("guard.map", fmt.Sprintf(f, m), true)
 		}
 	}
 
